@@ -887,36 +887,69 @@ theorem normalising_get_transparent {S : Type} [DecidableEq S] (fb : PlanCache.K
 /-- what an `.ok` answer of the front end is made of -/
 theorem Front.norm_ok {S : Type} (f : Front S) (s : S) (q op nk : PlanCache.Bytes) (sy : Vars)
     (h : f.norm s q op = .ok nk sy) :
-    nk = [] ∨ ∃ doc d, f.parse q = some doc ∧ normalizeDocument (f.schemaOf s) doc (f.opStr op) = .ok d sy ∧
-      nk = f.keyOf d (f.opStr op) ∧ f.buildN s q op = d := by
+    ∃ doc, f.parse q = some doc ∧
+      (nk = [] ∨ ∃ d, normalizeDocument (f.schemaOf s) doc (f.opStr op) = .ok d sy ∧
+        nk = f.keyOf d (f.opStr op) ∧ f.buildN s q op = d) := by
   unfold Front.norm at h
   cases hp : f.parse q with
   | none => simp only [hp] at h; cases h
   | some doc =>
     simp only [hp] at h
+    refine ⟨doc, rfl, ?_⟩
     cases hn : normalizeDocument (f.schemaOf s) doc (f.opStr op) with
     | rootError => simp only [hn] at h; cases h
     | notApplicable => simp only [hn] at h; cases h; exact Or.inl rfl
     | ok d sy0 =>
       simp only [hn] at h
       cases h
-      exact Or.inr ⟨doc, d, rfl, hn, rfl, by simp only [Front.buildN, hp, hn]⟩
+      exact Or.inr ⟨d, rfl, rfl, by simp only [Front.buildN, hp, hn]⟩
 
 /-- **repaired_key_faithful — the key assumption DISCHARGED for the repaired key.** With the key construction of
-`notes/fixes/D-06k.diff` (`keyShapeRepaired`: length-prefixed operation name; `"raw:" + query` for requests
-normalisation does not apply to; `printedKey` = `"doc:"` + printed normalised document otherwise), equal cache keys
-imply documents equal up to source locations — for ALL byte strings as operation names and queries, no collision
-assumption. Premises: the parser's documents are printer-well-formed (C03's output satisfies C08's `WFDocument`) and
-`SchemaOK`. For the key as coded (`keyShapeCoded` + FNV fingerprint) the same statement is FALSE: D-06k (hash
-collision) and D-06l (the fingerprint does not see definitions the selected operation does not reach). -/
+`notes/fixes/D-06k.diff` (`keyShapeRepaired`: `operationName + "\x00" + normKey`; `normKey` = `"raw:" + query` for
+requests normalisation does not apply to, `printedKey` = `"doc:"` + printed normalised document otherwise), equal cache
+keys imply documents equal up to source locations: no hash, no collision assumption, operation names are ARBITRARY byte
+strings. Premises: the parser's documents are printer-well-formed (C03's output satisfies C08's `WFDocument`),
+`SchemaOK`, and — for the `"\x00"` separator — text that parses, and the printed text of a well-formed document,
+contain no NUL byte (`hq`, `hd`: the lexer rejects every control character but tab / LF / CR, in comments and strings
+too, and the printer escapes them; LexerSpec states it, no theorem of C03/C08 is quoted for it). For the key as coded
+(`keyShapeCoded` + FNV fingerprint) the same statement is FALSE: D-06k (hash collision) and D-06l (the fingerprint does
+not see definitions the selected operation does not reach). -/
 theorem repaired_key_faithful {S : Type} (f : Front S)
     (hk : ∀ d op, f.keyOf d op = printedKey d)
     (hp : ∀ q doc, f.parse q = some doc → Printer.WFDocument doc)
+    (hq : ∀ q doc, f.parse q = some doc → ∀ b ∈ q, b ≠ 0)
+    (hd : ∀ d, Printer.WFDocument d → ∀ b ∈ printedKey d, b ≠ 0)
     (hs : ∀ s, SchemaOK (f.schemaOf s)) :
     PlanCache.KeyFaithful PlanCache.keyShapeRepaired SameShape f.norm f.buildN := by
   intro s q op q' op' nk sy nk' sy' hn hn' hkey
   simp only [PlanCache.normCacheKey, PlanCache.keyShapeRepaired] at hkey
-  obtain ⟨hop, hkk⟩ := PlanCache.rawKey_injective _ _ _ _ hkey
+  obtain ⟨doc, hpa, hcase⟩ := Front.norm_ok f s q op nk sy hn
+  obtain ⟨doc', hpa', hcase'⟩ := Front.norm_ok f s q' op' nk' sy' hn'
+  have hraw : ∀ (x : PlanCache.Bytes), (∀ b ∈ x, b ≠ 0) → ∀ b ∈ PlanCache.rawFallbackKeyText x, b ≠ 0 := by
+    intro x hx b hb
+    simp only [PlanCache.rawFallbackKeyText, List.mem_append, List.mem_cons, List.not_mem_nil, or_false] at hb
+    rcases hb with (rfl | rfl | rfl | rfl) | hb
+    · decide
+    · decide
+    · decide
+    · decide
+    · exact hx b hb
+  -- both effective keys are NUL-free
+  have hnf : ∀ b ∈ (if nk = [] then PlanCache.rawFallbackKeyText q else nk), b ≠ 0 := by
+    by_cases h1 : nk = []
+    · simp only [h1, if_true]; exact hraw q (hq q doc hpa)
+    · simp only [h1, if_false]
+      rcases hcase with h | ⟨d, hno, hnk, _⟩
+      · exact absurd h h1
+      · rw [hnk, hk]; exact hd d (normalize_keeps_wf _ (hs s) doc d _ sy (hp q doc hpa) hno)
+  have hnf' : ∀ b ∈ (if nk' = [] then PlanCache.rawFallbackKeyText q' else nk'), b ≠ 0 := by
+    by_cases h1 : nk' = []
+    · simp only [h1, if_true]; exact hraw q' (hq q' doc' hpa')
+    · simp only [h1, if_false]
+      rcases hcase' with h | ⟨d, hno, hnk, _⟩
+      · exact absurd h h1
+      · rw [hnk, hk]; exact hd d (normalize_keeps_wf _ (hs s) doc' d _ sy' (hp q' doc' hpa') hno)
+  obtain ⟨hop, hkk⟩ := PlanCache.nulJoin_inj _ _ _ _ hnf hnf' hkey
   subst hop
   have hdoc : ∀ d : Document, PlanCache.rawFallbackKeyText q ≠ printedKey d ∧
       PlanCache.rawFallbackKeyText q' ≠ printedKey d := by
@@ -931,17 +964,17 @@ theorem repaired_key_faithful {S : Type} (f : Front S)
     subst this
     rfl
   · simp only [h1, h2, if_true, if_false] at hkk
-    rcases Front.norm_ok f s q' op nk' sy' hn' with h | ⟨_, d, _, _, hnk, _⟩
+    rcases hcase' with h | ⟨d, _, hnk, _⟩
     · exact absurd h h2
     · rw [hnk, hk] at hkk; exact absurd hkk (hdoc d).1
   · simp only [h1, h2, if_true, if_false] at hkk
-    rcases Front.norm_ok f s q op nk sy hn with h | ⟨_, d, _, _, hnk, _⟩
+    rcases hcase with h | ⟨d, _, hnk, _⟩
     · exact absurd h h1
     · rw [hnk, hk] at hkk; exact absurd hkk.symm (hdoc d).2
   · simp only [h1, h2, if_false] at hkk
-    rcases Front.norm_ok f s q op nk sy hn with h | ⟨doc, d, hpa, hno, hnk, hb⟩
+    rcases hcase with h | ⟨d, hno, hnk, hb⟩
     · exact absurd h h1
-    rcases Front.norm_ok f s q' op nk' sy' hn' with h | ⟨doc', d', hpa', hno', hnk', hb'⟩
+    rcases hcase' with h | ⟨d', hno', hnk', hb'⟩
     · exact absurd h h2
     rw [hb, hb']
     rw [hnk, hnk', hk, hk] at hkk
@@ -950,10 +983,13 @@ theorem repaired_key_faithful {S : Type} (f : Front S)
       (normalize_keeps_wf _ (hs s) doc' d' _ sy' (hp q' doc' hpa') hno') hkk
 
 /-- **normalising_get_transparent_repaired** — `normalising_get_transparent` with the key assumption discharged:
-for the key construction of `notes/fixes/D-06k.diff` no hypothesis about keys or hashes is left. -/
+for the key construction of `notes/fixes/D-06k.diff` no hypothesis about hashes or collisions is left (premises of
+`repaired_key_faithful` and of `normalized_transparent`). -/
 theorem normalising_get_transparent_repaired {S : Type} [DecidableEq S] (f : Front S)
     (hk : ∀ d op, f.keyOf d op = printedKey d)
     (hp : ∀ q doc, f.parse q = some doc → Printer.WFDocument doc)
+    (hq : ∀ q doc, f.parse q = some doc → ∀ b ∈ q, b ≠ 0)
+    (hd : ∀ d, Printer.WFDocument d → ∀ b ∈ printedKey d, b ≠ 0)
     (errRes : S → PlanCache.Bytes → PlanCache.Bytes → Document) (failed : Document → Bool)
     (c : PlanCache.Cache S Document) (s : S) (q op : PlanCache.Bytes)
     (h : PlanCache.InvE PlanCache.keyShapeRepaired SameShape f.norm f.buildN c)
@@ -968,7 +1004,7 @@ theorem normalising_get_transparent_repaired {S : Type} [DecidableEq S] (f : Fro
       Exec.execute (f.schemaOf s) (PlanCache.getNorm PlanCache.keyShapeRepaired f.norm errRes f.buildN failed c s q op).2.1.res
           (f.opStr op) (synth ++ inputs) w fuel =
         Exec.execute (f.schemaOf s) doc (f.opStr op) inputs w fuel) :=
-  normalising_get_transparent PlanCache.keyShapeRepaired f (repaired_key_faithful f hk hp hsch) errRes failed c s q op h
+  normalising_get_transparent PlanCache.keyShapeRepaired f (repaired_key_faithful f hk hp hq hd hsch) errRes failed c s q op h
     doc docN synth inputs w fuel hparse hnorm hcc (hsch s) hlex hu
 
 /-! ## non-vacuity -/
